@@ -1489,8 +1489,8 @@ def impl_assembly(raw, path, method):
     from schemathesis.specs.openapi.serialization import get_serializers_for_operation
 
     op = schemathesis.openapi.from_dict(raw)[path][method]
-    rec = {"examples": None, "combos": [], "combo_copies": [], "draws": []}
-    orig_pc, orig_gps = ex.produce_combinations, hy.get_parameters_strategy
+    rec = {"examples": None, "combos": [], "combo_copies": [], "draws": [], "gpv": []}
+    orig_pc, orig_gps, orig_gpv = ex.produce_combinations, hy.get_parameters_strategy, hy.get_parameters_value
 
     def pc(examples):
         rec["examples"] = list(examples)
@@ -1509,19 +1509,28 @@ def impl_assembly(raw, path, method):
 
         return strategy.map(note)
 
-    ex.produce_combinations, hy.get_parameters_strategy = pc, gps
+    def gpv(value, location, *args, **kwargs):
+        # the object get_parameters_value hands to the Case (what serialize_components finds there); the objects themselves
+        # are kept, so that id() stays meaningful until the comparison
+        out = orig_gpv(value, location, *args, **kwargs)
+        rec["gpv"].append((location, value, out))
+        return out
+
+    ex.produce_combinations, hy.get_parameters_strategy, hy.get_parameters_value = pc, gps, gpv
     try:
         strategies = op.get_strategies_from_examples()
-        cases, per_case_draws = [], []
+        cases, per_case_draws, per_case_gpv = [], [], []
         for strategy in strategies:
             rec["draws"] = []
+            rec["gpv"] = []
             cases.append(ge.generate_one(strategy))
             per_case_draws.append(rec["draws"][-4:])  # path, header, cookie, query of the draw that produced the case
+            per_case_gpv.append(rec["gpv"][-4:])
     finally:
-        ex.produce_combinations, hy.get_parameters_strategy = orig_pc, orig_gps
+        ex.produce_combinations, hy.get_parameters_strategy, hy.get_parameters_value = orig_pc, orig_gps, orig_gpv
     serializers = get_serializers_for_operation(op)
     return {"op": op, "examples": rec["examples"], "combos": rec["combos"], "combo_copies": rec["combo_copies"], "cases": cases,
-            "draws": per_case_draws, "serializers": serializers, "loc2cont": dict(LOCATION_TO_CONTAINER)}
+            "draws": per_case_draws, "gpv": per_case_gpv, "serializers": serializers, "loc2cont": dict(LOCATION_TO_CONTAINER)}
 
 
 def stage_assembly(chk, n):
@@ -1579,11 +1588,14 @@ def stage_assembly(chk, n):
                 draw_tbl.append((idx, k, drawn))
                 add_ser(k, v)
                 if drawn is not None:
-                    add_ser(k, {**v, **drawn} if v else drawn)
-        # what the cases hold now
-        impl_wires, case_ids = [], []
-        for combo, case in zip(obs["combo_copies"], obs["cases"]):
+                    merged = {**v, **drawn} if v else drawn
+                    add_ser(k, {kk: vv for kk, vv in merged.items() if kk in v})  # own: the explicit keys (since cedd1977)
+                    add_ser(k, merged)  # the pre-fix rule (sentinel) serialized the whole merged container
+        # what the cases hold now; what get_parameters_value had handed to them (before serialize_components)
+        impl_wires, case_ids, gen_ids, kept = [], [], [], []
+        for combo, case, calls in zip(obs["combo_copies"], obs["cases"], obs["gpv"]):
             w = []
+            gen_by_loc = {loc: out for loc, _value, out in calls}
             for k in combo:
                 if k in ("media_type", "body"):
                     continue
@@ -1591,33 +1603,48 @@ def stage_assembly(chk, n):
                 w.append([k, None if val is None else canon(dict(val))])  # headers: CaseInsensitiveDict
                 if val is not None:
                     case_ids.append(id(val))
+                loc = [l for l, c in cont_of.items() if c == k][0]
+                gen = gen_by_loc.get(loc)
+                if gen is not None:
+                    gen_ids.append(id(gen))
+                # the Case constructor copies headers into a CaseInsensitiveDict: never the generated object (not modelled as an
+                # allocation of its own; the location always has a serializer and the container is not empty, so the model
+                # says "new object" there too)
+                kept.append(val is gen)
             impl_wires.append(w)
         impl = {
             "source_sharing": [src_names, first_occurrence_labels(src_ids)],
             "wires": impl_wires,
             "case_objects": first_occurrence_labels(case_ids),
             "case_object_is_a_source_object": any(x in set(src_ids) for x in case_ids),
+            "generated_object_is_a_source_object": [x in set(src_ids) for x in gen_ids],
+            "case_keeps_the_generated_object": kept,
             "source_unchanged": all(strict_key(a) == strict_key(b) for a, b in zip(obs["combos"], obs["combo_copies"])),
             "exclude_is_value_keys": exclude_ok,
         }
         l = clist([c_example(e) for e in exs], "example")
         dt = clist([ctuple(ctuple(cnat(i_), cstr(k)), copt(None if d is None else cdict(d), "(list (str * json))")) for i_, k, d in draw_tbl], "(nat * str * option dict)")
         stbl = clist([ctuple(ctuple(cstr(k), cdict(a)), cdict(b)) for k, a, b in ser_tbl], "(str * dict * dict)")
-        exprs.append(f"assembly_report CopyWhenDrawn (draw_table {dt}) (ser_table {stbl}) {l}")
+        smap = clist([cstr(k) for k in obs["serializers"]], "str")
+        exprs.append(f"assembly_report CopyWhenDrawn SerExplicitOnly (draw_table {dt}) (smap_of {smap}) (ser_table {stbl}) {l}")
         jobs.append((raw, info, exs, impl))
     model = coq_eval(exprs) if exprs else []
     agree = shared_src = 0
     for (raw, info, exs, impl), m in zip(jobs, model):
-        m_refs, m_wires, m_cases, m_src_ok = m
+        m_refs, m_wires, m_cases, m_src_ok, m_gen = m
         names = [pstr(c) for rc in m_refs for c, _ in rc]
         addrs = [a for rc in m_refs for _, a in rc]
-        m_case_addrs = [popt_addr(o) for cr in m_cases for _, o in cr]
-        m_case_addrs = [a for a in m_case_addrs if a is not None]
+        m_case_all = [popt_addr(o) for cr in m_cases for _, o in cr]
+        m_gen_all = [popt_addr(o) for cr in m_gen for _, o in cr]
+        m_case_addrs = [a for a in m_case_all if a is not None]
+        m_gen_addrs = [a for a in m_gen_all if a is not None]
         mod = {
             "source_sharing": [names, first_occurrence_labels(addrs)],
             "wires": [[[pstr(c), None if o is None else ["obj", [[pstr(k), mjson(v)] for k, v in o[1]]]] for c, o in w] for w in m_wires],
             "case_objects": first_occurrence_labels(m_case_addrs),
             "case_object_is_a_source_object": any(a in set(addrs) for a in m_case_addrs),
+            "generated_object_is_a_source_object": [a in set(addrs) for a in m_gen_addrs],
+            "case_keeps_the_generated_object": [a == b for a, b in zip(m_case_all, m_gen_all)],
             "source_unchanged": m_src_ok,
             "exclude_is_value_keys": True,
         }
@@ -1726,9 +1753,11 @@ def run(chk: core.Check):
         "extract_inner_examples, extract_from_schema, get_parameters_strategy(exclude)/get_parameters_value, add_examples and the mark table of run_test",
         "correspondence harness harness/props/c17.py (encoders, Coq output parser, canonical JSON, generators, stubs for Hypothesis strategies)",
         "oracle: harness/loopback.py recording server, harness/engine_util.py, urllib.parse / json as the reference decoders",
-        "case assembly (Model_C17 section 7): the heap model of dict objects (address = identity, deepclone = allocation, the style "
-        "conversions write into the dict they are given); the style serializer and the fill-in draw are function arguments, instantiated in the "
-        "correspondence by finite tables filled from the real serializer / the recorded draws; id() of the container dicts as the observed identity",
+        "case assembly (Model_C17 section 7): the heap model of dict objects (address = identity, deepclone = allocation, a dict display = "
+        "allocation; since fix cedd1977 serialize_components builds a new dict from the explicit keys, the pre-fix in-place rule is a sentinel); "
+        "the style serializer, the set of containers that have one and the fill-in draw are function arguments, instantiated in the "
+        "correspondence by finite tables filled from the real serializer / the recorded draws; id() of the container dicts (kept alive) as the "
+        "observed identity, get_parameters_value wrapped to see the object it hands to the Case",
         "harness/props/c17_styles.py: generator of styled operations and the independent RFC 6570 / OpenAPI 3.0 style decoder",
         "harness/props/c17_headers.py: generator of operations with unsendable header examples, the oracle's own notion of a header value that "
         "every HTTP/1.1 implementation transmits verbatim (RFC 7230 field-content) and its own round-robin pairing of the declared examples; "
@@ -1742,7 +1771,8 @@ def run(chk: core.Check):
         "an invalid-header / Unsatisfiable / SerializationNotPossible / SchemaError outcome counts as 'reported as an error for that operation' even for "
         "sibling examples of the same operation that could have been sent on their own",
         "case assembly theorems: a location that has an explicit container declares parameters and the mode is positive, so its fill-in strategy is not "
-        "st.none() (all_drawn; add_examples passes no generation_mode); Hypothesis draws each example strategy to completion once (generate_one)",
+        "st.none() (all_drawn; add_examples passes no generation_mode); Hypothesis draws each example strategy to completion once (generate_one); "
+        "the fill-in draw has distinct keys none of which is an explicit key (fill_ok: exclude = value.keys(), checked per run as exclude_is_value_keys)",
         "'sent unchanged' for a styled parameter = a server decoding the request per the declared style (RFC 6570 / OpenAPI 3.0 table) obtains the example; "
         "only style/explode/type combinations where serialization.py follows that table are generated (the deviating ones are C06 findings)",
         "an example whose EVERY case (as paired by the round-robin) carries a header example that cannot be sent counts as reported with that case "
@@ -1760,7 +1790,8 @@ def run(chk: core.Check):
         "non-trivial = >=2 parameters or parameters+bodies (lists), >=1 value extracted (fragments), >=3 planted examples (documents); "
         "styled operations (case assembly correspondence and styled oracle): 1-7 parameters over path/query/header/cookie with each style x explode x type "
         "combination that follows the OpenAPI 3.0 table (simple, label, matrix, form, spaceDelimited, pipeDelimited, deepObject, content application/json; primitive / array / object), "
-        "1-3 examples per parameter, 70% of the operations with an example for EVERY parameter, shapes: more body examples than parameter combinations (half of the documents entirely), "
+        "1-3 examples per parameter, 70% (assembly) / 60% (styled oracle) of the operations with an example for EVERY parameter, the others with required fill-ins in every style "
+        "(the class of the fixed finding F7), shapes: more body examples than parameter combinations (half of the documents entirely), "
         "more parameter combinations than bodies, equal, no body; non-trivial = a parameter combination is cycled over several bodies and a non-idempotent style carries an example; "
         "header validity: every code point 0-299 + Unicode blanks as first / inner / last character of a value, names with colon / blank / line break, non-str values; "
         "add_examples with header dictionaries: 0-6 cases, headers None / 1-3 headers, invalid cases none / one (first, middle, last) / two / many / all, values LF, CR, CRLF, "
